@@ -235,6 +235,8 @@ Connack(c) ==
                                !.connackSent = @ \/ legal,
                                !.hasSession = IF legal /\ ok THEN TRUE ELSE @,
                                !.pubrecSeen = IF legal /\ ok /\ ~sp THEN {} ELSE @,
+                               \* a new session: the server's packet identifiers start over (an identifier of the lost session comes back with new content)
+                               !.nextIn = IF legal /\ ok /\ ~sp THEN 1 ELSE @,
                                !.tamIn = es.cfg.tamIn]
            p == [Blank EXCEPT !.type = "CONNACK", !.sp = c.sp, !.rc = c.rc, !.rm = c.rm, !.ka = c.ka, !.tam = c.tam, !.mqos = c.mqos, !.mps = c.mps,
                               !.ret = c.ret, !.wild = c.wild, !.subid = c.subid, !.shared = c.shared, !.acid = c.acid]
